@@ -205,7 +205,7 @@ def main():
                 hinge = bool(fl and c["hinge"][fl - 1])
                 desc = classify(c["tree"], fam_of.get(fl, 0), f["kind"], af, hinge)
                 agg.add(desc, universe, c, {"text": o["text"], "flow": fl, "kind": f["kind"], "exp": f.get("exp"),
-                                           "got": f.get("got"), "msg": f.get("msg", "")[:300]})
+                                           "got": f.get("got"), "msg": f.get("msg", "").split("\n")[0][:300]})
         run.cov["failing_facts_F"] = nfail
         # negative control: a corrupted expectation must be rejected by the binding
         badids = {o["id"] for o in bad}
@@ -269,7 +269,7 @@ def main():
                     nfail_b += 1
                     desc = classify(e["tree"], fl["fam"], kind, af, m["hinge"][j])
                     agg.add(desc, e["flows"], case, {"text": e["text"], "flow": fl, "kind": kind, "exp": m["exp"][j],
-                                                     "got": e["got"][j], "msg": e.get("msg", "")[:300]})
+                                                     "got": e["got"][j], "msg": e.get("msg", "").split("\n")[0][:300]})
                 if e["rej"]:
                     break
         run.cov["failing_facts_B"] = nfail_b
